@@ -3,6 +3,7 @@
 from __future__ import annotations
 
 import ast
+import re
 from typing import Iterable, Iterator
 
 from .dataflow import RD, attr_chain
@@ -402,4 +403,159 @@ def symbol_sites(tree: Tree, module_prefixes: Iterable[str]) -> list[dict]:
                     "assumptions": assumptions,
                     "star_kwargs": star,
                 })
+    return out
+
+
+# --------------------------------------------------------------------------- R-PREC
+
+
+def _template(js: ast.JoinedStr) -> tuple[str, list[ast.AST]]:
+    """Template text with ``\\x00<i>\\x01`` marks for the placeholders."""
+    parts, holes = [], []
+    for v in js.values:
+        if isinstance(v, ast.Constant):
+            parts.append(str(v.value))
+        else:
+            parts.append(f"\x00{len(holes)}\x01")
+            holes.append(v.value)
+    return "".join(parts), holes
+
+
+def _top_kind(node: ast.AST) -> str:
+    """'atomic' (call / subscript / name of such), 'product' (* / ** at the top), else 'arbitrary'."""
+    if isinstance(node, (ast.Call, ast.Subscript, ast.Constant)):
+        return "atomic"
+    if isinstance(node, ast.BinOp) and isinstance(node.op, (ast.Mult, ast.Div, ast.Pow)):
+        return "product"
+    if isinstance(node, ast.UnaryOp):
+        return "arbitrary"
+    return "arbitrary"
+
+
+def field_kinds(tree: Tree, cls_qual: str) -> dict[str, str] | None:
+    """For a *private* expression class: the syntactic kind of what its constructor sites
+    pass for each field ('atomic' / 'product' / 'arbitrary').  None for public classes
+    (users may pass anything)."""
+    from .exprmodel import expression_classes
+    from .inline import Inliner
+
+    classes = expression_classes(tree)
+    if cls_qual not in classes or not classes[cls_qual].name.startswith("_"):
+        return None
+    cls = classes[cls_qual]
+    names = [f.name for f in cls.fields]
+    kinds: dict[str, str] = {}
+    n_sites = 0
+    order = {"atomic": 0, "product": 1, "arbitrary": 2}
+    for q, fn in tree.funcs.items():
+        if not q.startswith("ampform"):
+            continue
+        for call, callee in tree.calls_in(fn, nested=False):
+            if callee != cls_qual:
+                continue
+            n_sites += 1
+            inl = Inliner(fn.node)
+            given = dict(zip(names, call.args))
+            for k in call.keywords:
+                if k.arg:
+                    given[k.arg] = k.value
+            for name, expr in given.items():
+                kind = _top_kind(inl.expr(expr))
+                if name not in kinds or order[kind] > order[kinds[name]]:
+                    kinds[name] = kind
+    if n_sites == 0:
+        return None
+    return kinds
+
+
+def precedence_hazards(tree: Tree, fn: FuncInfo) -> list[tuple[ast.AST, str]]:
+    """Placeholders of generated-code templates that sit next to an operator of higher
+    precedence than what the printed sub-expression may have at its top level."""
+    out: list[tuple[ast.AST, str]] = []
+    printer = fn.params[1] if len(fn.params) > 1 else "printer"
+    rd = RD(fn.node)
+    kinds = field_kinds(tree, fn.cls.qual) if fn.cls is not None else None
+    fields_by_local: dict[str, str] = {}
+    if fn.cls is not None:
+        from .exprmodel import expression_classes
+
+        ec = expression_classes(tree).get(fn.cls.qual)
+        if ec is not None:
+            for st, elts, _ in self_args_unpackings(fn):
+                for e, f in zip(elts, [x.name for x in ec.sympy_fields]):
+                    if isinstance(e, ast.Name):
+                        fields_by_local[e.id] = f
+
+    def value_kind(node: ast.AST, depth: int = 0) -> str:
+        """Kind of the *printed text* this expression denotes."""
+        if depth > 8:
+            return "arbitrary"
+        if isinstance(node, ast.Call):
+            f = node.func
+            if isinstance(f, ast.Attribute) and isinstance(f.value, ast.Name) and f.value.id == printer:
+                if f.attr == "parenthesize":
+                    return "atomic"
+                if f.attr.startswith("_print") and node.args:
+                    arg = node.args[0]
+                    # self.<field> of a private class: what do the constructor sites pass?
+                    if isinstance(arg, ast.Attribute) and isinstance(arg.value, ast.Name) and arg.value.id == "self" and kinds is not None:
+                        return kinds.get(arg.attr, "arbitrary")
+                    return "arbitrary"
+            return "arbitrary"
+        if isinstance(node, ast.JoinedStr):
+            text, _ = _template(node)
+            if re.fullmatch(r"[A-Za-z_][\w.]*\(.*\)", text.strip(), re.S):
+                return "atomic"
+            return "arbitrary"
+        if isinstance(node, ast.Constant):
+            return "atomic"
+        if isinstance(node, ast.Name):
+            if node.id in fields_by_local and kinds is not None:
+                # a, b = map(printer._print, self.args)
+                defs = rd.reaching(node)
+                if defs and all(d.value is not None and "map(" in unparse(d.value) for d in defs):
+                    return kinds.get(fields_by_local[node.id], "arbitrary")
+            worst = "atomic"
+            order = {"atomic": 0, "product": 1, "arbitrary": 2}
+            defs = rd.reaching(node)
+            if not defs:
+                return "arbitrary"
+            for d in defs:
+                if d.value is None or d.index is not None and "map(" not in unparse(d.value):
+                    return "arbitrary"
+                k = "arbitrary" if "map(" in unparse(d.value) else value_kind(d.value, depth + 1)
+                if order[k] > order[worst]:
+                    worst = k
+            return worst
+        return "arbitrary"
+
+    for node in walk_function(fn.node, nested=False):
+        if not isinstance(node, ast.JoinedStr):
+            continue
+        text, holes = _template(node)
+        # only templates that are generated code: heuristically those that reach a return
+        for i, hole in enumerate(holes):
+            mark = f"\x00{i}\x01"
+            pos = text.index(mark)
+            before = text[:pos].rstrip()
+            after = text[pos + len(mark):].lstrip()
+            hazards = []
+            if before.endswith("-") or (before.endswith("+") and False):
+                # unary or binary minus: `- a + b` changes meaning
+                hazards.append(("minus before", "product"))
+            if before.endswith(("*", "/", "%", "@")):
+                hazards.append((f"`{before[-2:].strip()}` before", "atomic"))
+            if after.startswith(("**",)):
+                hazards.append(("`**` after", "atomic"))
+            elif after.startswith(("*", "/", "%", "@")):
+                hazards.append((f"`{after[0]}` after", "atomic"))
+            elif after.startswith(("[", ".")) and not after.startswith("..."):
+                hazards.append((f"`{after[0]}` after", "atomic"))
+            if not hazards:
+                continue
+            kind = value_kind(hole)
+            order = {"atomic": 0, "product": 1, "arbitrary": 2}
+            for what, need in hazards:
+                if order[kind] > order[need]:
+                    out.append((hole, f"placeholder {{{unparse(hole)}}} has `{what}` in the template but the printed sub-expression may be {'a sum' if kind == 'arbitrary' else 'a product'} (not parenthesised)"))
     return out
